@@ -382,9 +382,34 @@ class Inliner:
             i += 1
         return out
 
+    def _inline_test_temporaries(self, stmts):
+        """`t = <boolean expression>` immediately followed by `if t:` / `if not t:` / `while`-free use, t assigned once and read once
+        ->  the expression is tested directly (so that the CFG splits its and/or/not into atomic guards)"""
+        out = list(stmts)
+        i = 0
+        while i + 1 < len(out):
+            st, nxt = out[i], out[i + 1]
+            tv = targets_values(st) if isinstance(st, (ast.Assign, ast.AnnAssign)) else []
+            if len(tv) == 1 and isinstance(tv[0][0], ast.Name) and isinstance(tv[0][1], (ast.BoolOp, ast.Compare, ast.UnaryOp)) and isinstance(nxt, ast.If):
+                name = tv[0][0].id
+                test = nxt.test
+                neg = False
+                while isinstance(test, ast.UnaryOp) and isinstance(test.op, ast.Not):
+                    test, neg = test.operand, not neg
+                if is_name(test, name) and self.stores.get(name, 0) == 1 and self.loads.get(name, 0) == 1:
+                    expr = clone(tv[0][1])
+                    new_if = clone(nxt)
+                    new_if.test = ast.copy_location(ast.UnaryOp(op=ast.Not(), operand=expr), nxt.test) if neg else expr
+                    ast.fix_missing_locations(new_if)
+                    out[i:i + 2] = [new_if]
+                    continue
+            i += 1
+        return out
+
     def _stmts(self, stmts, depth):
         out = []
         stmts = self._sink_selection(stmts) if depth == 0 else stmts
+        stmts = self._inline_test_temporaries(stmts) if depth == 0 else stmts
         for st in stmts:
             if isinstance(st, (ast.FunctionDef, ast.AsyncFunctionDef, ast.ClassDef)):
                 out.append(st)
